@@ -70,6 +70,8 @@ std::vector<uint64_t> g_pct_points; size_t g_pct_next = 0; int g_pct_low = 0;
 uint64_t g_seq_events = 0;
 sim::Fnv g_trace_fnv, g_inter_fnv;
 uint64_t g_race_keys[64]; int g_nrace_keys = 0;
+struct Probe { uintptr_t lo, hi; uint64_t hits; };
+Probe g_probes[32]; int g_nprobes = 0;
 
 // ------------------------------------------------------------- shadow memory
 struct Slot { uint32_t clk; uint8_t tid, off, size, write; uint16_t op; uintptr_t pc; };
@@ -334,6 +336,26 @@ void init()
    __real_sem_init(&g_main_sem, 0, 0);
 }
 
+void set_probes(const std::vector<std::pair<uintptr_t, uintptr_t>>& ranges)
+{
+   g_nprobes = 0;
+   for (auto& r : ranges) if (g_nprobes < 32) g_probes[g_nprobes++] = {r.first, r.second, 0};
+}
+
+std::vector<std::pair<uintptr_t, uintptr_t>> find_functions(const std::string& substring)
+{
+   std::vector<std::pair<uintptr_t, uintptr_t>> out;
+   load_symbols();
+   if (!g_syms) return out;
+   for (size_t i = 0; i + 1 < g_syms->size(); ++i) {
+      int st = 0; char* d = abi::__cxa_demangle((*g_syms)[i].name.c_str(), nullptr, nullptr, &st);
+      const std::string n = (st == 0 && d) ? d : (*g_syms)[i].name;
+      std::free(d);
+      if (n.find(substring) != std::string::npos && (*g_syms)[i + 1].addr > (*g_syms)[i].addr) out.push_back({(*g_syms)[i].addr, (*g_syms)[i + 1].addr});
+   }
+   return out;
+}
+
 const Result& result() { return g_res; }
 uint64_t sequential_events() { return g_seq_events; }
 void reset_sequential_events() { g_seq_events = 0; }
@@ -359,6 +381,7 @@ void run_tasks(int n, void (*fn)(int, void*), void* arg, const Config& cfg)
    g_sync->clear();
    g_trace_fnv = sim::Fnv(); g_inter_fnv = sim::Fnv(); g_nrace_keys = 0; g_seg_start = 0;
    g_pct_points.clear(); g_pct_next = 0; g_pct_low = 0;
+   for (int i = 0; i < g_nprobes; ++i) g_probes[i].hits = 0;
    if (cfg.strategy == S_PCT) {
       for (int i = 0; i < cfg.pct_depth; ++i) g_pct_points.push_back(1 + g_rng.below(std::max<uint64_t>(cfg.est_events, 2)));
       std::sort(g_pct_points.begin(), g_pct_points.end());
@@ -382,6 +405,7 @@ void run_tasks(int n, void (*fn)(int, void*), void* arg, const Config& cfg)
    g_active = false;
    for (int i = 0; i < n; ++i) { __real_pthread_join(T[i].th, nullptr); __real_sem_destroy(&T[i].sem); T[i].state = T_UNUSED; }
    g_res.trace_hash = g_trace_fnv.h; g_res.interleave_hash = g_inter_fnv.h;
+   for (int i = 0; i < g_nprobes; ++i) g_res.probe_hits.push_back(g_probes[i].hits);
    for (auto& r : g_res.races) {
       r.fn_a = symbolize(r.pc_a); r.fn_b = symbolize(r.pc_b);
       if (r.addr >= (uintptr_t)&__data_start && r.addr < (uintptr_t)&_end) r.where = symbolize(r.addr); else r.where = "heap";
@@ -398,7 +422,15 @@ using namespace thrsim;
 extern "C" {
 
 void __tsan_init() {}
-void __tsan_func_entry(void* pc) { if (g_active && tl_task == g_cur && tl_task >= 0) { Task& t = T[g_cur]; if (t.depth < 64) t.callstack[t.depth] = (uintptr_t)pc; ++t.depth; } }
+void __tsan_func_entry(void* pc)
+{
+   if (g_active && tl_task == g_cur && tl_task >= 0) {
+      Task& t = T[g_cur];
+      if (t.depth < 64) t.callstack[t.depth] = (uintptr_t)pc;
+      ++t.depth;
+      if (g_nprobes) { const uintptr_t self = PC; for (int i = 0; i < g_nprobes; ++i) if (self >= g_probes[i].lo && self < g_probes[i].hi) ++g_probes[i].hits; }
+   }
+}
 void __tsan_func_exit() { if (g_active && tl_task == g_cur && tl_task >= 0) { Task& t = T[g_cur]; if (t.depth > 0) --t.depth; } }
 
 #define RW(n) \
